@@ -107,16 +107,17 @@ func ensureRaceEnv() string {
 }
 
 type childResult struct {
-	rep      int
-	rounds   []*roundOut
-	done     bool
-	exit     int
-	timedOut bool
-	stderr   string
-	races    []raceReport
-	logFiles int
-	maxRSSKB int64
-	burst    []burstKindOut
+	rep       int
+	rounds    []*roundOut
+	done      bool
+	exit      int
+	timedOut  bool
+	stderr    string
+	races     []raceReport
+	logFiles  int
+	maxRSSKB  int64
+	burst     []burstKindOut
+	construct []constructOut
 }
 
 func runRep(scratch string, jb job, watchdog time.Duration) *childResult {
@@ -176,6 +177,7 @@ func runRep(scratch string, jb job, watchdog time.Duration) *childResult {
 			if ro.Done {
 				res.done = true
 				res.burst = ro.Burst
+				res.construct = ro.Construct
 				continue
 			}
 			res.rounds = append(res.rounds, &ro)
@@ -222,6 +224,7 @@ func main() {
 		"caller variations rotate per operation (Close twice, Close plus deferred Close, Write after Close, zero-length Writes/Reads, an extra writer abandoned without Close, Reads past EOF); each encrypting round starts with 4 lone encryptions closed twice, made after the round's GOMAXPROCS is set; two goroutines never call Close on one stream concurrently",
 		"heterogeneous headers: pools of reference-built files with the shared identity's stanza at position first/middle/last of 1, 2, 3, 8, 17, 40 stanzas (foreign stanzas: unknown types, X25519 and ssh-ed25519 for other keys); operations draw several in a row; tight-loop bursts (8 goroutines, one fresh shared identity per kind, unknown-type fillers only, no perturbed I/O) run at the end of each race child and, much longer, in a process built without -race",
 		"stalled-peer stage (child process): one operation is parked in the caller's Write/Read at header / nonce / chunk / Close positions, or in a pipe nobody reads yet; 8 peers on the same shared values must complete meanwhile; 'blocked' is decided logically (not complete within a 12 s step watchdog while parked, complete once released); a control round separates starvation (inconclusive)",
+		"construct-while-use stage (in every race child): per caller value (ssh.PublicKey ed25519/rsa, *rsa.PrivateKey, ed25519.PrivateKey, PEM bytes + key line, public key + PEM for NewEncryptedSSHIdentity, X25519 identity and strings, passphrase, plugin strings) 4 goroutines construct from it again and again while 4 goroutines use siblings built earlier; the caller's value is compared with a deep copy afterwards; the EncryptedSSHIdentity values are only used through Recipient() (decrypting costs a bcrypt run)",
 		"shared lists: three []age.Identity orders of the four identities and two []age.Recipient lists, spread with ... into the calls; checked unchanged after every round that used them, plus a sequential pass",
 		"EncryptedSSHIdentity (caches the decrypted key) and plugin values are outside the property's list of types and are not exercised",
 		"decryption inputs and the check of encryption outputs come from the reference implementation (refage), validated against the CCTV vectors at start-up",
@@ -497,6 +500,37 @@ func main() {
 	r.Set("overlapping_decryption_pairs_with_different_stanza_counts", heteroPairs)
 	r.Set("tight_loop_bursts", bursts)
 	r.Set("tight_loop_burst_decryptions", burstOps)
+
+	// ---- construction concurrent with use -------------------------------------------
+	consTab := map[string]map[string]int{}
+	consCases := 0
+	for _, res := range results {
+		for _, co := range res.construct {
+			consCases++
+			r.Eval(co.Constructs + co.UsesFresh + co.UsesOld)
+			r.Distinct("construct/" + co.Case)
+			t := consTab[co.Case]
+			if t == nil {
+				t = map[string]int{}
+				consTab[co.Case] = t
+			}
+			t["constructions"] += co.Constructs
+			t["uses_of_fresh_values"] += co.UsesFresh
+			t["uses_of_sibling_values"] += co.UsesOld
+			t["failed"] += co.NFails
+			for _, f := range co.Fails {
+				r.Violate(f.Key, f.What, f.Case)
+			}
+			if !co.Overlapped {
+				r.Inconclusive("construct stage %q (repetition %d): the constructing and the using loops did not overlap", co.Case, res.rep)
+			}
+		}
+	}
+	if consCases < 10*reps && len(dedup) == 0 {
+		r.Inconclusive("construct stage: %d case runs, expected %d", consCases, 10*reps)
+	}
+	r.Count("construct_while_use_case_runs", int64(consCases))
+	r.Set("construct_while_use", consTab)
 
 	// ---- the library-defaults stage (no race detector; progress verdict) -------
 	dsum := map[string]any{"built_s": dres.buildS, "wall_s": dres.wallS, "peak_rss_kb": dres.peakRSSKB, "rounds_completed": dres.roundsDone}
